@@ -315,6 +315,8 @@ func (r *decideRun) eval1(v ssa.Value) AV {
 		return r.eval(x.X)
 	case *ssa.ChangeType:
 		return r.eval(x.X)
+	case *ssa.ChangeInterface:
+		return r.eval(x.X)
 	case *ssa.Extract:
 		t := r.eval(x.Tuple)
 		if t.Kind == "tuple" && x.Index < len(t.Tup) {
@@ -786,6 +788,8 @@ func DecideTrace(fn *ssa.Function, oracle Oracle) (res []AV, trace []ssa.Instruc
 // CallEvent is one executed call on the decided path, with its arguments evaluated at that moment.
 type CallEvent struct {
 	Call ssa.CallInstruction
+	// Recv: for an interface method call, the receiver as decided on the path
+	Recv AV
 	Args []AV
 	// for arguments that are addresses of objects built on the path: the allocated type and the fields as
 	// stored at the moment of the call (".f0", ".f1", ...), indexed like Args
@@ -809,6 +813,9 @@ func DecideCalls(fn *ssa.Function, oracle Oracle, want func(ssa.CallInstruction)
 		root := run
 		for root.parent != nil {
 			root = root.parent
+		}
+		if ci.Common().IsInvoke() {
+			ev.Recv = run.eval(ci.Common().Value)
 		}
 		for _, a := range ci.Common().Args {
 			av := run.eval(a)
